@@ -109,7 +109,7 @@ func (g *Gen) absNumber(zero bool) string {
 
 func (g *Gen) sign() string { return g.pick("", "", "", "", "+", "-") }
 
-func (g *Gen) number() string  { return g.sign() + g.absNumber(g.chance(1, 8)) }
+func (g *Gen) number() string    { return g.sign() + g.absNumber(g.chance(1, 8)) }
 func (g *Gen) posNumber() string { return g.pick("", "", "+") + g.absNumber(g.chance(1, 10)) }
 func (g *Gen) integer() string {
 	return g.sign() + g.pick("0", "1", "2", "3", "10", "100", "999", "01", "0010", g.digits(1+g.r.Intn(5)))
